@@ -148,6 +148,14 @@ def classify(rc, out, timed_out):
     if "cannot allocate memory" in out or "out of memory" in out:
         return "error", "oom"
     fails = FAIL_RE.findall(out)
+    m = re.search(r"\[rapid\] panic after \d+ tests:.*?\n\s+Traceback:\n((?:\s+/.*\n)+)", out)
+    if m:
+        # a panic inside the property: a verdict only if galene's own code is on the stack; a panic with nothing but
+        # harness frames is a bug of the harness, never an alarm
+        frames = re.findall(r"in (github\.com/jech/galene/\S+)", m.group(1))
+        files = re.findall(r"^\s+(/\S+\.go):\d+ in github\.com/jech/galene/", m.group(1), re.M)
+        if files and all(("zz_verif" in f or "verifkit" in f) for f in files):
+            return "error", "harness-panic"
     if fails:
         return "violation", ",".join(sorted(set(fails)))
     if "WARNING: DATA RACE" in out:
